@@ -259,4 +259,14 @@ theorem arm_metaData (t : TorState) (size index : Nat) (data : Bytes) (env : Tor
     intro _
     exact ⟨henv.1, henv.2.1, rfl, henv.2.2⟩
 
+/-- what one event may cost the torrent, as a function of the event alone (no torrent
+    state, no numeric field beyond the index a peer was allowed to announce) -/
+def torCost : TEv → Nat
+  | .peerHave i _ => 2 * (i + 1)
+  | .peerBitmap bm _ => 10 * bmLen bm
+  | .peerExtended _ => 48 + metaConst
+  | .metaData _ _ _ => 1025 + metaConst
+  | .addKnown _ _ _ v => 512 + v.length
+  | _ => 0
+
 end Storrent.PeerMsg
